@@ -229,7 +229,7 @@ PROPS = {
     "C18": rc("C18", {"quick": C("C18", "C18b", "C18c", "C18d"), "thorough": C("C18", "C18b", "C18c", "C18d")},
               ["history:keep-last-replaces-oldest"]),
     "C19": rc("C19", {"quick": C("C19", "C19b", "C19c"), "thorough": C("C19", "C19b", "C19c")}, ["limits:rejected"]),
-    "C20": rc("C20", {"quick": C("C20"), "thorough": C("C20")}, ["access", "access:specific-instance", "access:unknown-instance"]),
+    "C20": rc("C20", {"quick": C("C20", "C20b"), "thorough": C("C20", "C20b")}, ["access", "access:specific-instance", "access:unknown-instance"]),
     "C21": rc("C21", {"quick": C("C21", "C21b", "C21c"), "thorough": C("C21", "C21b", "C21c")}, ["order:inserted-before-later-timestamp"]),
     "C22": rc("C22", {"quick": C("C22", "C22b", "C22c"), "thorough": C("C22", "C22b", "C22c")},
               ["state:rebirth", "state:unregister-while-other-writers-remain"]),
